@@ -4,9 +4,17 @@ import json, os, random
 import vlib, scen, formats, gen_core
 
 
-def partitions(N, rng, k):
-    """k partitions of N (frames) into write calls: one call, all ones (if small), edges, random odd pieces"""
+def partitions(N, rng, k, B=1):
+    """k partitions of N (frames) into write calls: one call, 1+rest, rest+1, pieces that end exactly on / one before / one after a
+    block edge (B), all ones (if small), random odd pieces"""
     out = [[N]]
+    if B > 1 and N >= B:
+        for first in (B - 1, B, B + 1):
+            if 0 < first < N:
+                out.append([first, N - first])
+        if N > B + 1:
+            out.append([1, B, N - B - 1] if N - B - 1 > 0 else [1, N - 1])
+            out.append([B, N - B - 1, 1] if N - B - 1 > 0 else [N - 1, 1])
     if N >= 2:
         out.append([1, N - 1])
         out.append([N - 1, 1])
@@ -34,7 +42,7 @@ def c07_scenarios(S, fmt, ch, rate, N, rng, nparts, Ts=None):
         sid = S.scn(fmt="0x%x" % fmt, ch=ch, T=T, N=N, kind="c07", ckey="c07_%d" % (S.n + 1))
         rt = scen.route_for(fmt)
         fid = 0
-        for pi, parts in enumerate(partitions(N, rng, nparts)):
+        for pi, parts in enumerate(partitions(N, rng, nparts, B)):
             fid += 1
             S.add("file %d new" % fid, "open 0 %s w %d %d %d %d" % (rt, fid, fmt, ch, rate))
             off = 0
@@ -82,6 +90,26 @@ def c11_scenarios(S, fmt, ch, rate, rng, auto, nsteps=4, T=None):
     S.add("close 0")
 
 
+def c11_overwrite(S, fmt, ch, rate, rng, auto):
+    """sample granular encodings: write N, seek back, overwrite in the middle, update the header while the writer is NOT at the end"""
+    T = gen_core.type_for(fmt)
+    lc = scen.lossless_class(fmt, T)
+    cls, par = lc if lc else ("noise", 0)
+    N = rng.choice([40, 100])
+    p, k = rng.randint(1, N // 2), rng.randint(1, N // 3)
+    S.scn(fmt="0x%x" % fmt, ch=ch, T=T, kind="c11ow", auto=auto)
+    S.add("file 1 new", "open 0 vio w 1 %d %d %d" % (fmt, ch, rate))
+    S.add("write 0 %s f %d gen %s %d %d" % (T, N, cls, rng.randint(1, 10 ** 6), par))
+    if auto:
+        S.add("cmd 0 SET_UPDATE_HEADER_AUTO 1")
+    S.add("seek 0 %d 0" % p, "write 0 %s f %d gen %s %d %d" % (T, k, cls, rng.randint(1, 10 ** 6), par))
+    if not auto:
+        S.add("cmd 0 UPDATE_HEADER_NOW 0")
+    S.add("file 2 copy 1", "open 1 vio r 2 %d %d %d" % (fmt if scen.major(fmt) == scen.RAW else 0, ch, rate), "read 1 %s f %d" % (T, N + 3), "close 1")
+    S.add("seek 0 0 2", "write 0 %s f 3 gen %s %d %d" % (T, cls, rng.randint(1, 10 ** 6), par), "close 0",
+          "open 1 vio r 1 %d %d %d" % (fmt if scen.major(fmt) == scen.RAW else 0, ch, rate), "read 1 %s f %d" % (T, N + 6), "close 1")
+
+
 def workload(fmt, ch, rate, rng, h, fid, kind):
     """op list for one handle (C19)"""
     T = gen_core.type_for(fmt)
@@ -104,6 +132,9 @@ def workload(fmt, ch, rate, rng, h, fid, kind):
         ops.append("open %d %s r %d %d %d %d" % (h, rt, fid, ofmt, ch, rate))
         for c in scen.read_plan(N + 2, rng):
             ops.append("read %d %s f %d" % (h, T, c))
+        for _ in range(4):          # seeks into every block, forwards and backwards
+            ops.append("seek %d %d 0" % (h, rng.choice([0, B - 1 if B > 1 else 3, B, B + 1, N - 1, N // 2])))
+            ops.append("read %d %s f %d" % (h, T, rng.choice([1, 2, 5])))
         ops.append("close %d" % h)
     elif kind == "r":      # reader of an existing file (fid prepared by the caller), seeks and reads, some failing calls
         ops.append("open %d %s r %d %d %d %d" % (h, rt, fid, ofmt, ch, rate))
@@ -411,3 +442,39 @@ def c18_scenario(S, fmt, ch, rate, rng, N, layout, nparts, rdwr=False):
             S.add("calc 1 %s" % nm)
         S.add("read 1 %s f 2" % T)
     S.add("cmd 1 SET_NORM_DOUBLE 0", "calc 1 CALC_NORM_SIGNAL_MAX", "cmd 1 GET_NORM_DOUBLE 0", "close 1")
+
+
+def c19_codec_pairs(S, fmt, ch, rate, rng, k=2, steps=14):
+    """k readers of DIFFERENT files of the same encoding (different content and length): each file is first read through alone
+    (the model learns the stream), then the handles seek and read interleaved across all blocks"""
+    T = gen_core.type_for(fmt)
+    lc = scen.lossless_class(fmt, T)
+    cls, par = lc if lc else ("noise", 0)
+    B = scen.block_hint(fmt, ch, rate)
+    S.scn(fmt="0x%x" % fmt, ch=ch, T=T, kind="c19p", k=k)
+    Ns = []
+    ofmt = fmt if scen.major(fmt) == scen.RAW else 0
+    for h in range(k):
+        N = (2 + h) * B + 1 + 3 * h if B > 1 else 60 + 17 * h
+        Ns.append(N)
+        # different kinds of content per file (incompressible noise, a smooth ramp, silence): different block / packet layouts
+        c2, p2 = [(cls, par), ("ramp", 0), ("zeros", 0)][h % 3]
+        S.add("file %d new" % (h + 1), "open %d vio w %d %d %d %d" % (h, h + 1, fmt, ch, rate),
+              "write %d %s f %d gen %s %d %d" % (h, T, N, c2, rng.randint(1, 10 ** 6), p2), "close %d" % h)
+    for h in range(k):
+        S.add("open %d vio r %d %d %d %d" % (h, h + 1, ofmt, ch, rate))
+        for c in scen.read_plan(Ns[h] + 2, rng, chunk=rng.choice([None, 1000])):
+            S.add("read %d %s f %d" % (h, T, c))
+    lists = []
+    for h in range(k):
+        ops = []
+        N = Ns[h]
+        targets = sorted(set(t for t in [0, 1, B - 1, B, B + 1, 2 * B - 1, 2 * B, 2 * B + 1, N - 2, N - 1, N // 2, 3 * B] if 0 <= t < N))
+        for _ in range(steps):
+            ops.append("seek %d %d 0" % (h, rng.choice(targets)))
+            ops.append("read %d %s f %d" % (h, T, rng.choice([1, 2, 5, 9])))
+        ops.append("errq %d" % h)
+        ops.append("close %d" % h)
+        lists.append(ops)
+    for ln in merge(lists, rng):
+        S.add(ln)
